@@ -211,6 +211,8 @@ def build_file(s, data, filler=0, tail_pad=True):
 
 # ---------------------------------------------------------------- decoder
 class _Rd:
+    log = None          # decode_tokens(): list of (offset, length, what) of every header token read
+
     def __init__(self, b, version):
         self.b, self.p, self.v = b, 0, version
 
@@ -218,6 +220,8 @@ class _Rd:
         if n < 0 or self.p + n > len(self.b):
             raise FormatError("truncated header while reading %s at %d" % (what, self.p))
         r = self.b[self.p:self.p + n]
+        if _Rd.log is not None:
+            _Rd.log.append((self.p, n, what))
         self.p += n
         return r
 
@@ -339,6 +343,16 @@ def decode_header(b, strict=True):
             if len(set(names)) != len(names):
                 raise FormatError("duplicate attribute name")
     return s, r.p
+
+
+def decode_tokens(b):
+    """(offset, length, what) of every token of the header of b, in file order"""
+    _Rd.log = []
+    try:
+        decode_header(b, strict=False)
+        return _Rd.log
+    finally:
+        _Rd.log = None
 
 
 def check_layout(s, hlen, filesize=None, strict_vsize=True):
